@@ -113,6 +113,7 @@ func Assert(ok bool, msg string) {
 }
 func Reach(label string)           {}
 func Native() bool                 { return true }
+func ReportRaces()                 {}
 func Ite(c bool, a, b int) int {
 	if c {
 		return a
